@@ -17,12 +17,14 @@
     nft_on_grid_is_dft    1-D, all N: positions j/N give the shifted DFT matrix ω^{(k + N − N/2)·j} = ω^{k j}·cj(ω^{(N/2) j})
     nft_on_grid_is_dft_nd D-dim, all shapes with N_d ∣ M: entry = Π_d (ω^{M/N_d}) ^ (κ_d · j_d)   (product of 1-D DFT entries)
     nft_shift             adding whole periods to any coordinates leaves the exponent table and the matrix unchanged
+    nft_entry_complex     K = ℂ, ω = e^{2πi/M} (`omegaC_pow`, `omegaC_conj`: hypotheses hold for every M): E[r,j] = exp(2πi·Σ_d κ_d a_{j,d}/M)
 -/
 import NiftyVerif.Model.Nft
 import NiftyVerif.Lemmas.Coo
 import NiftyVerif.Lemmas.CQ
 import Mathlib.Tactic.Ring
 import Mathlib.Algebra.Group.Units.Basic
+import Mathlib.Analysis.SpecialFunctions.Trigonometric.Basic
 
 namespace NiftyVerif.Nft
 open NiftyVerif NiftyVerif.Coo
@@ -483,5 +485,63 @@ example : nftExp 4 [2, 3] [[1, -2], [1, 0]] = nftExp 4 [2, 3] [[1, 2], [-3, 0]] 
 example := nft_shift CQ.I 4 (fun j d => (j : Int) - d) [2, 3] [[1, 2], [-3, 0]]
 
 end examples
+
+/-! ### the complex instance: `K = ℂ`, `ω = e^{2πi/M}`, every `M > 0`
+  (this section is the only user of the analysis import; it shows that the hypotheses `ω^M = 1`, `cj ω · ω = 1` of the
+  theorems above are met for EVERY `M` — over `CQ` only `M ∈ {1,2,4}` have a primitive root — and that the entries are the
+  documented phase factors `exp(i · Σ_d κ_d · 2π · pos_{j,d} · dst_d)` with `pos_{j,d}·dst_d = a_{j,d}/M`) -/
+section complex
+open Complex
+
+/-- `ω = e^{2πi/M}` -/
+noncomputable def omegaC (M : Nat) : ℂ := Complex.exp (2 * Real.pi * I / M)
+
+theorem omegaC_pow {M : Nat} (hM : 0 < M) : omegaC M ^ M = 1 := by
+  unfold omegaC
+  rw [← Complex.exp_nat_mul]
+  have hM' : (M : ℂ) ≠ 0 := by exact_mod_cast (Nat.pos_iff_ne_zero.mp hM)
+  have : (M : ℂ) * (2 * Real.pi * I / M) = 2 * Real.pi * I := by field_simp
+  rw [this, exp_two_pi_mul_I]
+
+theorem isConj_star : IsConj (starRingEnd ℂ) := ⟨map_add _, map_mul _, Complex.conj_conj⟩
+
+theorem omegaC_conj (M : Nat) : starRingEnd ℂ (omegaC M) * omegaC M = 1 := by
+  unfold omegaC
+  rw [← Complex.exp_conj, ← Complex.exp_add]
+  have : (starRingEnd ℂ) (2 * Real.pi * I / M) + 2 * Real.pi * I / M = 0 := by
+    simp only [map_div₀, map_mul, Complex.conj_ofReal, Complex.conj_I, map_natCast, map_ofNat]
+    ring
+  rw [this, Complex.exp_zero]
+
+/-- over ℂ the entry is the documented phase factor `exp(2πi · Σ_d κ_d a_{j,d} / M)` -/
+theorem nft_entry_complex {M : Nat} (hM : 0 < M) (shape : List Nat) (a : List (List Int)) (r j : Nat)
+    (hr : r < prodL shape) (hj : j < a.length) :
+    dense (nftCoo (omegaC M) M shape a) r j
+      = Complex.exp (2 * Real.pi * I * ((phase shape (unravel shape r) (a.getD j []) : Int) : ℂ) / M) := by
+  rw [nft_dense _ _ _ _ _ _ hr hj]
+  unfold nftExpAt
+  generalize phase shape (unravel shape r) (a.getD j []) = m
+  have h1 : (0 : Int) < M := by exact_mod_cast hM
+  have h2 : ((m % (M : Int)).toNat : Int) = m % (M : Int) := Int.toNat_of_nonneg (Int.emod_nonneg m (ne_of_gt h1))
+  have hM' : (M : ℂ) ≠ 0 := by exact_mod_cast (Nat.pos_iff_ne_zero.mp hM)
+  have h3 : (m : ℂ) = (M : ℂ) * ((m / (M : Int) : Int) : ℂ) + (((m % (M : Int)).toNat : Nat) : ℂ) := by
+    have := Int.mul_ediv_add_emod m M
+    rw [← h2] at this
+    exact_mod_cast this.symm
+  have h4 : 2 * Real.pi * I * (m : ℂ) / M
+      = ((m / (M : Int) : Int) : ℂ) * (2 * Real.pi * I) + (((m % (M : Int)).toNat : Nat) : ℂ) * (2 * Real.pi * I / M) := by
+    rw [h3]; field_simp
+  rw [h4, Complex.exp_add, exp_int_mul_two_pi_mul_I, one_mul, Complex.exp_nat_mul]
+  rfl
+
+
+/-- all theorems of this file apply to the complex operator for every `M > 0`, e.g. adjointness and the evaluation of the
+    driver's coefficient lists (`M = 12`, a lattice the harness generates, has no primitive root in `CQ`) -/
+example (shape : List Nat) (a : List (List Int)) (x y : Nat → ℂ) :=
+  nft_adjoint isConj_star (omegaC 12) 12 shape a x y
+example (shape : List Nat) (a : List (List Int)) (y : Nat → ℂ) (j : Nat) (hj : j < a.length) :=
+  nft_mono_applyAdj isConj_star (by decide : 0 < 12) (omegaC_pow (by decide)) (omegaC_conj 12) shape a y j hj
+
+end complex
 
 end NiftyVerif.Nft
